@@ -654,6 +654,7 @@ func init() {
 	registerTimeCtx()
 	registerJSON()
 	registerURL()
+	registerStreams()
 	for _, f := range intrinsicsLate {
 		f()
 	}
